@@ -3,35 +3,35 @@
 The ddnet / teeworlds-0.5 / 0.6 / 0.7 sources are generated and structurally identical; a KEY listed for one
 of them stands for the same generated code in the others.
 """
-
-# U16: `Unpacker::read_raw(n)` returns `slice.split_at(n).0` on `Ok` (after checking `slice.len() >= n`),
-#      i.e. a slice of exactly `n` bytes; on `Err` the `?` returns before `from_slice` is called.
-#      `Uuid::from_slice` (uuid 0.8.1) fails only if `b.len() != 16`.
-# S32: `libtw2_common::digest::Sha256::from_slice` fails only if `bytes.len() != 32`.
-_UUID = ("`_p.read_raw(16)?` yields exactly 16 bytes on `Ok` (`split_at(16).0` after the `slice.len() < len` "
-         "check in `Unpacker::read_raw`) and returns early on `Err`; `Uuid::from_slice` (uuid 0.8.1) errs only "
-         "for `len != 16`, so the `unwrap` cannot fire for any input bytes.")
-_SHA = ("`_p.read_raw(32)?` yields exactly 32 bytes on `Ok` (`split_at(32).0` in `Unpacker::read_raw`) and returns "
-        "early on `Err`; `Sha256::from_slice` (common/src/digest.rs) errs only for `bytes.len() != 32`, so the "
-        "`unwrap` cannot fire for any input bytes.")
-
 REVIEWED = {
     'libtw2_gamenet_common::msg::SystemOrGame::encode_id | panic-call | assert! | 0':
         "Encode side (out of the decode/from_i32 scope): explicit check that an ordinal message id is not 0 (0 is the escape for UUID ids). Every workspace caller passes `self.msg_id()` of a generated message (`MessageExt::encode`, `System::encode`, `Game::encode`), which is `MessageId::from(CONST)` with generated constants `>= 1` or a `Uuid`; not influenced by received bytes.",
     'libtw2_gamenet_common::msg::SystemOrGame::encode_id | panic-call | assert! | 1':
         "Encode side: explicit check that the ordinal fits in 31 bits (non-negative) before `iid << 1 | flag`. Callers pass generated positive constants (`msg_id()` of generated messages) or `Uuid` (iid = 0); a decoded raw id is never re-encoded through this function.",
-    'libtw2_gamenet_ddnet::msg::system::WhatIs::decode | unwrap | unwrap<-builder::from_slice | 0': _UUID,
-    'libtw2_gamenet_ddnet::msg::system::ItIs::decode | unwrap | unwrap<-builder::from_slice | 0': _UUID,
-    'libtw2_gamenet_ddnet::msg::system::IDontKnow::decode | unwrap | unwrap<-builder::from_slice | 0': _UUID,
-    'libtw2_gamenet_ddnet::msg::system::MapDetails::decode | unwrap | unwrap<-Sha256::from_slice | 0': _SHA,
-    'libtw2_gamenet_ddnet::msg::system::ClientVersion::decode | unwrap | unwrap<-builder::from_slice | 0': _UUID,
-    'libtw2_gamenet_ddnet::msg::system::PingEx::decode | unwrap | unwrap<-builder::from_slice | 0': _UUID,
-    'libtw2_gamenet_ddnet::msg::system::PongEx::decode | unwrap | unwrap<-builder::from_slice | 0': _UUID,
-    'libtw2_gamenet_ddnet::msg::system::ChecksumRequest::decode | unwrap | unwrap<-builder::from_slice | 0': _UUID,
-    'libtw2_gamenet_ddnet::msg::system::ChecksumResponse::decode | unwrap | unwrap<-builder::from_slice | 0': _UUID,
-    'libtw2_gamenet_ddnet::msg::system::ChecksumResponse::decode | unwrap | unwrap<-Sha256::from_slice | 0': _SHA,
-    'libtw2_gamenet_ddnet::msg::system::ChecksumError::decode | unwrap | unwrap<-builder::from_slice | 0': _UUID,
-    'libtw2_gamenet_teeworlds_0_7::msg::system::MapChange::decode | unwrap | unwrap<-Sha256::from_slice | 0': _SHA,
+    'libtw2_gamenet_ddnet::msg::system::WhatIs::decode | unwrap | unwrap<-builder::from_slice | 0':
+        "`_p.read_raw(16)?` yields exactly 16 bytes on `Ok` (`split_at(16).0` after the `slice.len() < len` check in `Unpacker::read_raw`) and returns early on `Err`; `Uuid::from_slice` (uuid 0.8.1) errs only for `len != 16`, so the `unwrap` cannot fire for any input bytes.",
+    'libtw2_gamenet_ddnet::msg::system::ItIs::decode | unwrap | unwrap<-builder::from_slice | 0':
+        "`_p.read_raw(16)?` yields exactly 16 bytes on `Ok` (`split_at(16).0` after the `slice.len() < len` check in `Unpacker::read_raw`) and returns early on `Err`; `Uuid::from_slice` (uuid 0.8.1) errs only for `len != 16`, so the `unwrap` cannot fire for any input bytes.",
+    'libtw2_gamenet_ddnet::msg::system::IDontKnow::decode | unwrap | unwrap<-builder::from_slice | 0':
+        "`_p.read_raw(16)?` yields exactly 16 bytes on `Ok` (`split_at(16).0` after the `slice.len() < len` check in `Unpacker::read_raw`) and returns early on `Err`; `Uuid::from_slice` (uuid 0.8.1) errs only for `len != 16`, so the `unwrap` cannot fire for any input bytes.",
+    'libtw2_gamenet_ddnet::msg::system::MapDetails::decode | unwrap | unwrap<-Sha256::from_slice | 0':
+        "`_p.read_raw(32)?` yields exactly 32 bytes on `Ok` (`split_at(32).0` in `Unpacker::read_raw`) and returns early on `Err`; `Sha256::from_slice` (common/src/digest.rs) errs only for `bytes.len() != 32`, so the `unwrap` cannot fire for any input bytes.",
+    'libtw2_gamenet_ddnet::msg::system::ClientVersion::decode | unwrap | unwrap<-builder::from_slice | 0':
+        "`_p.read_raw(16)?` yields exactly 16 bytes on `Ok` (`split_at(16).0` after the `slice.len() < len` check in `Unpacker::read_raw`) and returns early on `Err`; `Uuid::from_slice` (uuid 0.8.1) errs only for `len != 16`, so the `unwrap` cannot fire for any input bytes.",
+    'libtw2_gamenet_ddnet::msg::system::PingEx::decode | unwrap | unwrap<-builder::from_slice | 0':
+        "`_p.read_raw(16)?` yields exactly 16 bytes on `Ok` (`split_at(16).0` after the `slice.len() < len` check in `Unpacker::read_raw`) and returns early on `Err`; `Uuid::from_slice` (uuid 0.8.1) errs only for `len != 16`, so the `unwrap` cannot fire for any input bytes.",
+    'libtw2_gamenet_ddnet::msg::system::PongEx::decode | unwrap | unwrap<-builder::from_slice | 0':
+        "`_p.read_raw(16)?` yields exactly 16 bytes on `Ok` (`split_at(16).0` after the `slice.len() < len` check in `Unpacker::read_raw`) and returns early on `Err`; `Uuid::from_slice` (uuid 0.8.1) errs only for `len != 16`, so the `unwrap` cannot fire for any input bytes.",
+    'libtw2_gamenet_ddnet::msg::system::ChecksumRequest::decode | unwrap | unwrap<-builder::from_slice | 0':
+        "`_p.read_raw(16)?` yields exactly 16 bytes on `Ok` (`split_at(16).0` after the `slice.len() < len` check in `Unpacker::read_raw`) and returns early on `Err`; `Uuid::from_slice` (uuid 0.8.1) errs only for `len != 16`, so the `unwrap` cannot fire for any input bytes.",
+    'libtw2_gamenet_ddnet::msg::system::ChecksumResponse::decode | unwrap | unwrap<-builder::from_slice | 0':
+        "`_p.read_raw(16)?` yields exactly 16 bytes on `Ok` (`split_at(16).0` after the `slice.len() < len` check in `Unpacker::read_raw`) and returns early on `Err`; `Uuid::from_slice` (uuid 0.8.1) errs only for `len != 16`, so the `unwrap` cannot fire for any input bytes.",
+    'libtw2_gamenet_ddnet::msg::system::ChecksumResponse::decode | unwrap | unwrap<-Sha256::from_slice | 0':
+        "`_p.read_raw(32)?` yields exactly 32 bytes on `Ok` (`split_at(32).0` in `Unpacker::read_raw`) and returns early on `Err`; `Sha256::from_slice` (common/src/digest.rs) errs only for `bytes.len() != 32`, so the `unwrap` cannot fire for any input bytes.",
+    'libtw2_gamenet_ddnet::msg::system::ChecksumError::decode | unwrap | unwrap<-builder::from_slice | 0':
+        "`_p.read_raw(16)?` yields exactly 16 bytes on `Ok` (`split_at(16).0` after the `slice.len() < len` check in `Unpacker::read_raw`) and returns early on `Err`; `Uuid::from_slice` (uuid 0.8.1) errs only for `len != 16`, so the `unwrap` cannot fire for any input bytes.",
+    'libtw2_gamenet_teeworlds_0_7::msg::system::MapChange::decode | unwrap | unwrap<-Sha256::from_slice | 0':
+        "`_p.read_raw(32)?` yields exactly 32 bytes on `Ok` (`split_at(32).0` in `Unpacker::read_raw`) and returns early on `Err`; `Sha256::from_slice` (common/src/digest.rs) errs only for `bytes.len() != 32`, so the `unwrap` cannot fire for any input bytes.",
 }
 SUSPECT = {
 }
